@@ -9,7 +9,8 @@ BUILD_FAILURE_IS_VIOLATION = {"force32": True}
 RULE = ("unit generators gen_C17 plus the C12, C13, C14, C15 workloads (ops that exist in both backends), run through the default and "
         "the force-32bits builds and compared byte for byte with each other and with the Spec; non-trivial = any; distinct = distinct case lines")
 TRUSTED = ["hand-written Lean models tied to the code by the correspondence run",
-           "fe32 mul/square and scalar32 reduction are covered by the correspondence, not by a refinement proof (see DESIGN C17)"]
+           "field and scalar layers of the 32-bit backend are proved (Props/C17/B32, Sc32, KernelTieB32); the group and protocol layers on the 32-bit backend "
+           "(ge.rs, ladder, ed25519 over fe32) are compared by running both builds, not by a refinement proof"]
 PROOF_SCOPE = 'partial by nature: field and scalar layers of both backends are proved equivalent (incl. ref10 sc_reduce/sc_muladd); the group/protocol layers on the 32-bit backend are compared by running both builds; which backend a target selects is a build matter'
 ASSUMPTIONS = []
 nontrivial = _auto.default_nontrivial
